@@ -29,16 +29,32 @@ pub struct Violation {
 pub enum ArenaBox {
     A(ArenaA),
     B(ArenaB),
+    /// pointer-free root
+    S(ArenaS),
 }
 
+/// Root-agnostic use of the arena (collection calls, metrics, phase).
 macro_rules! with_arena {
     ($slot:expr, $a:ident => $e:expr) => {
         match &mut $slot {
             ArenaBox::A($a) => $e,
             ArenaBox::B($a) => $e,
+            ArenaBox::S($a) => $e,
         }
     };
 }
+/// Use of the arena by something that looks at the root: `$root` is bound to a `&RootBody` /
+/// `&mut RootBody` of the real root, or - for a pointer-free root - evaluated with `$rs`.
+macro_rules! with_arena_root {
+    ($slot:expr, $a:ident => $e:expr, $s:ident => $es:expr) => {
+        match &mut $slot {
+            ArenaBox::A($a) => $e,
+            ArenaBox::B($a) => $e,
+            ArenaBox::S($s) => $es,
+        }
+    };
+}
+pub(crate) use with_arena_root;
 pub(crate) use with_arena;
 
 pub struct ArenaSlot {
@@ -417,6 +433,11 @@ impl World {
                     aliases.push("C06.adopted-lost".to_string());
                 }
             }
+            // the shared object of a reachable ZstCache: every Gc<T> the cache handed out is this
+            // very object, so losing it breaks "keeping either alive keeps the value alive"
+            if o.kind == Kind::ZstShared {
+                aliases.push("C19.zst-lost".to_string());
+            }
         }
         self.viol = Some(Violation { oracle: oracle.to_string(), event: self.ev_index, detail, aliases });
     }
@@ -438,6 +459,7 @@ impl World {
         match &self.arenas[a as usize].as_ref().unwrap().arena {
             ArenaBox::A(x) => x.collection_phase(),
             ArenaBox::B(x) => x.collection_phase(),
+            ArenaBox::S(x) => x.collection_phase(),
         }
     }
     pub fn metrics(&self, a: Aid) -> &Metrics {
@@ -455,6 +477,7 @@ impl World {
         Some(match &slot.arena {
             ArenaBox::A(x) => x.verif_snapshot(),
             ArenaBox::B(x) => x.verif_snapshot(),
+            ArenaBox::S(x) => x.verif_snapshot(),
         })
     }
 
